@@ -173,6 +173,7 @@ class World:
         self.log = []
         self.inflight = None             # name of source file to rewrite right after its next read()
         self.torn_exc = EOFError('Ran out of input')
+        self.use_default_path = False
 
     def now(self):
         return Ms(self.clock)
@@ -253,6 +254,8 @@ class FakeOS:
         return out
 
     def remove(self, p):
+        if not isinstance(p, (str, bytes)) and not hasattr(p, '__fspath__'):
+            raise TypeError('remove: path should be string, bytes or os.PathLike, not %s' % type(p).__name__)
         self.w.fault('remove')
         if str(p) not in self.w.files:
             raise FileNotFoundError(str(p))
@@ -288,6 +291,21 @@ class _DirEntry:
         if self.path not in self.w.files:
             raise FileNotFoundError(self.path)
         return _Stat(self.w.files[self.path])
+
+
+class FakeShutil:
+    def __init__(self, w):
+        self.w = w
+
+    def rmtree(self, p, *a, **k):
+        pre = str(p)
+        if pre not in self.w.dirs:
+            raise FileNotFoundError(pre)
+        for f in [f for f in self.w.files if f.startswith(pre + '/')]:
+            del self.w.files[f]
+            self.w.log.append('rmtree removed ' + f)
+        for d in [d for d in self.w.dirs if d == pre or d.startswith(pre + '/')]:
+            self.w.dirs.discard(d)
 
 
 class FakePickle:
@@ -378,8 +396,11 @@ class Installed:
         self.size_trigger = size_trigger
 
     def __enter__(self):
-        self.saved = {k: C.__dict__.get(k, _MISSING) for k in ('os', 'open', 'pickle', 'time', '_CACHED_SIZE_TRIGGER')}
+        self.saved = {k: C.__dict__.get(k, _MISSING) for k in ('os', 'open', 'pickle', 'time', 'shutil', '_CACHED_SIZE_TRIGGER',
+                                                             '_default_cache_path')}
         C.os = FakeOS(self.w)
+        C.shutil = FakeShutil(self.w)
+        C._default_cache_path = FakePath(self.w, '/cache0')     # the default location, inside the model
         C.open = make_open(self.w)
         C.pickle = FakePickle(self.w)
         C.time = FakeTime(self.w)
@@ -409,7 +430,7 @@ class Installed:
 
 
 _MISSING = object()
-FILES = ['a.py', 'b.py']
+FILES = ['mod.py', 'Mod.py']        # differ only in case: distinct files on a case-sensitive file system
 
 
 def _restore(obj, snap):
@@ -429,6 +450,8 @@ def do_parse(w, f, g, d, mode):
     """mode 0: cache, 1: cache+diff_cache, 2: diff_cache only, 3: no cache"""
     io = SrcIO(w, FILES[f])
     cp = FakePath(w, '/cache%d' % d)
+    if w.use_default_path and d == 0:
+        cp = None                  # the default cache location (same directory in the model)
     return GRAMMARS[g].parse(file_io=io, cache=mode in (0, 1), diff_cache=mode in (1, 2), cache_path=cp)
 
 
@@ -757,7 +780,7 @@ def torn_load(kind: int, wrong_type: bool, mode: int, mt: int, pkl_mt: int, now:
     return True
 
 
-def op_fault(prim: int, kind: int, mode: int, has_pkl: bool, pkl_cur: bool, lock_old: bool) -> bool:
+def op_fault(prim: int, kind: int, mode: int, has_pkl: bool, pkl_cur: bool, lock_old: bool, default_path: bool) -> bool:
     """
     require: 0 <= prim < len(PRIMS) and 0 <= kind < len(OS_KINDS) and 0 <= mode <= 1
     """
@@ -768,6 +791,7 @@ def op_fault(prim: int, kind: int, mode: int, has_pkl: bool, pkl_cur: bool, lock
     if kind not in REALISTIC[PRIMS[prim]]:
         return True
     w = World(now)
+    w.use_default_path = default_path
     w.src[FILES[0]] = [2, 500]
     with Installed(w):
         _mk_state(w, False, 1, 0, 0, has_pkl, 2 if pkl_cur else 1, 1000 if pkl_cur else 100, 0, 0, 0)
@@ -838,9 +862,15 @@ def cleanup_keeps_active(at0: int, mt0: int, at1: int, mt1: int, lock_mt: int, n
         w.files[p0] = Entry(_item(1, FILES[0], 1, mt0, mt0), mt0, at0)
         w.files[p1] = Entry(_item(1, FILES[1], 1, mt1, mt1), mt1, at1)
         w.files['/cache0/PARSO-CACHE-LOCK'] = Entry(None, lock_mt, lock_mt)
+        # the entry of another parso installation / interpreter sharing the cache root, just used
+        other = '/cache0/cpython-39-99/%s' % p0.rsplit('/', 1)[1]
+        w.dirs.add('/cache0/cpython-39-99')
+        w.files[other] = Entry(_item(1, FILES[0], 1, now, now), now, now)
         w.clock += dt
         if not _parse_quiet(w, 0, 0, 0, 0):
             return False
+        if dt < C._CACHED_FILE_MAXIMUM_SURVIVAL * 1000 and other not in w.files:
+            return _no('clean-up removed the freshly used entry of another installation: %s' % other)
         limit = C._CACHED_FILE_MAXIMUM_SURVIVAL * 1000
         for p, at in ((p0, at0), (p1, at1)):
             if at + limit > w.clock:
